@@ -385,8 +385,9 @@ def as_float64(case: "Case"):
 
 
 def gen_case(rng, e: Entry, data_dims=None, obs_dims=None, weights_dims=None, sizes=None, nan_p=0.0,
-             with_weights=None, weight_nan_p=0.0, overlap=None):
-    """labelled inputs for entry e.  data_dims: dims of fcst (score-specific dims are appended)."""
+             with_weights=None, weight_nan_p=0.0, overlap=None, single_member=False):
+    """labelled inputs for entry e.  data_dims: dims of fcst (score-specific dims are appended).
+    single_member: the smallest legal ensemble — the member dimension has size 1 (it must still disappear from the result)."""
     if data_dims is None:
         k = rng.choice([1, 2, 2, 3])
         data_dims = sorted(rng.sample(UNIVERSE, k))
@@ -394,6 +395,8 @@ def gen_case(rng, e: Entry, data_dims=None, obs_dims=None, weights_dims=None, si
         sizes = {d: rng.choice([1, 1, 2, 2, 3]) for d in UNIVERSE}
     sizes = dict(sizes)
     sizes.update(e.specific_sizes)
+    if single_member and "member" in e.specific_sizes:
+        sizes["member"] = 1
     if e.no_obs:
         obs_dims = []
     if obs_dims is None and overlap is not None:
